@@ -24,6 +24,14 @@ def run(tier):
         fams.append(("twin",) + gen_meta.binop_case(op, l, r, "AB-twin", "str", pr) + (None,))
     for op, l, r, pr in itertools.product(["+", ".."], ["num", "str", "plain", "tA"], ["tB", "uB"], ["str", "false", "decoy", "true"]):
         fams.append(("prot",) + gen_meta.binop_case(op, l, r, "B", "str", pr) + (None,))
+    # handlers that are not functions: callable tables and userdata are called, a number is an "attempt to call" error
+    cspace = [(op, l, r, c, ck) for op in gen_meta.ARITH + gen_meta.COMP for (l, r) in [("tA", "num"), ("str", "tB"), ("tA", "tB"), ("uA", "uB"), ("tA", "tA2"), ("nstr", "uB")]
+              for c in ["A", "B", "AB-same", "AB-diff"] for ck in ["table", "userdata", "number"]]
+    rng.shuffle(cspace)
+    for op, l, r, c, ck in cspace[:len(cspace) if thorough else 260]:
+        fams.append(("callable",) + gen_meta.binop_case(op, l, r, c, "str" if op in gen_meta.ARITH else "zero", rng.choice(gen_meta.PROTS), ck) + (None,))
+    for o, c, ck in itertools.product(["tA", "uB", "str", "nstr", "plain"], ["A", "B", "AB-same"], ["table", "userdata", "number"]):
+        fams.append(("callable",) + gen_meta.unm_case(o, c, "", ck) + (None,))
     for _ in range(1500 if thorough else 250):
         fams.append(("index",) + gen_meta.index_case(rng) + (None,))
     for pos, na, hk in itertools.product(["call", "tail", "stat", "forin", "gcall", "pcall", "nested"], [0, 1, 3], ["function", "nonfunction", "nil", "builtin:rawequal", "builtin:type", "builtin:select", "builtin:rawget"]):
@@ -37,7 +45,7 @@ def run(tier):
     progs = lsem.number(fams)
     verd, cov, allv, allo, stats = lsem.run_families(
         PROP, tier, progs,
-        "operand pairs from {number, numeric string, string, plain table, tables with metatable A/A/B, userdata with metatable A/B, nil, boolean} x every arithmetic/concat/comparison operator x handler presence {none, A only, B only, both same handler, both different, both twin closures of one function literal} x handler result kind x __metatable {absent, string, false, true, decoy table of handlers}, sampled from %d combinations (operands both as constants/upvalues and as registers); <= fallback to not(b<a); unary minus; __index/__newindex chains of depth 1-4 through tables and functions with raw bypass; __call in call/tail/statement/for-in/host re-entry/pcall/nested position; tostring/__metatable/getmetatable/setmetatable" % nspace,
+        "operand pairs from {number, numeric string, string, plain table, tables with metatable A/A/B, userdata with metatable A/B, nil, boolean} x every arithmetic/concat/comparison operator x handler presence {none, A only, B only, both same handler, both different, both twin closures of one function literal} x handler kind {function, callable table, callable userdata, uncallable number} x handler result kind x __metatable {absent, string, false, true, decoy table of handlers}, sampled from %d combinations (operands both as constants/upvalues and as registers); <= fallback to not(b<a); unary minus; __index/__newindex chains of depth 1-4 through tables and functions with raw bypass; __call in call/tail/statement/for-in/host re-entry/pcall/nested position; tostring/__metatable/getmetatable/setmetatable" % nspace,
         [], t0, max_steps=20000, extra_cov={"binop_space": nspace}, nontrivial_min_emits=2)
     lsem.foot_pass(PROP, progs, verd, stats, cov)      # Frames stage 2 (specs/FramesStep.tla)
     rc = verd.finish()
